@@ -447,3 +447,41 @@ package helper
 //@ modifies r
 //@ ensures r.Date == old(r.Date) && len(r.Columns) == old(len(r.Columns)) + 1 && r.Columns[old(len(r.Columns))] == column
 //@ ensures forall i :: 0 <= i && i < old(len(r.Columns)) ==> r.Columns[i] == old(r.Columns[i])
+
+// ---- JSON stream reader relative to an assumed contract of encoding/json.Decoder (C19) -----------------------------
+// whatever the bytes: the stream is closed on every path and the decode loop terminates (a successful Decode
+// consumes input; a failed one ends the goroutine)
+//@ func JSONToChanWithLogger
+//@ ensures[C19] "stream-is-closed-on-every-path" closed(result)
+//@ loop#0 invariant !closed(c) && extrem(decoder) >= 0
+//@ loop#0 decreases extrem(decoder)
+
+// ---- CSV reader relative to an assumed contract of encoding/csv.Reader (C19, C11) ----------------------------------
+// csvfpr(r): field count fixed by the first record read (-1 before); extrem(r): remaining input (progress measure)
+//@ func setReflectValue
+//@ trusted reflection (strconv / time parsing of one field): outside the verifier's subset
+
+// columns are mapped by header name: ColumnIndex is the position of the field's header in the header row, -1 if absent
+//@ func Csv.updateColumnIndexes
+//@ modifies c
+//@ ensures[C19,C11] len(c.columns) == old(len(c.columns)) && (forall j :: 0 <= j && j < len(c.columns) ==> c.columns[j].Header == old(c.columns[j].Header) && c.columns[j].FieldIndex == old(c.columns[j].FieldIndex))
+//@ ensures[C19,C11] result == nil ==> csvfpr(csvReader) >= 0 && (forall j :: 0 <= j && j < len(c.columns) ==> c.columns[j].ColumnIndex == 0 - 1 || (0 <= c.columns[j].ColumnIndex && c.columns[j].ColumnIndex < csvfpr(csvReader)))
+//@ ensures[C19,C11] result != nil ==> (forall j :: 0 <= j && j < len(c.columns) ==> c.columns[j].ColumnIndex == old(c.columns[j].ColumnIndex))
+//@ guarantees[C11] "column-index-is-the-position-of-the-header" result == nil ==> (forall j :: 0 <= j && j < len(c.columns) ==> (c.columns[j].ColumnIndex != 0 - 1 ==> res(csv_Reader_Read, 0, 0)[c.columns[j].ColumnIndex] == c.columns[j].Header))
+//@ guarantees[C11] "absent-only-if-no-such-header" result == nil ==> (forall j, p :: 0 <= j && j < len(c.columns) && 0 <= p && p < len(res(csv_Reader_Read, 0, 0)) && c.columns[j].ColumnIndex == 0 - 1 ==> res(csv_Reader_Read, 0, 0)[p] != c.columns[j].Header)
+//@ loop#0 invariant forall k str :: has(headerMap, k) ==> 0 <= headerMap[k] && headerMap[k] < idx0 && headers[headerMap[k]] == k
+//@ loop#0 invariant forall p :: 0 <= p && p < idx0 ==> has(headerMap, headers[p])
+//@ loop#1 invariant len(c.columns) == old(len(c.columns)) && (forall j :: 0 <= j && j < len(c.columns) ==> c.columns[j].Header == old(c.columns[j].Header) && c.columns[j].FieldIndex == old(c.columns[j].FieldIndex))
+//@ loop#1 invariant forall j :: 0 <= j && j < idx1 ==> c.columns[j].ColumnIndex == 0 - 1 || (0 <= c.columns[j].ColumnIndex && c.columns[j].ColumnIndex < len(headers) && headers[c.columns[j].ColumnIndex] == c.columns[j].Header)
+//@ loop#1 invariant forall j, p :: 0 <= j && j < idx1 && 0 <= p && p < len(headers) && c.columns[j].ColumnIndex == 0 - 1 ==> headers[p] != c.columns[j].Header
+//@ loop#1 invariant forall j :: idx1 <= j && j < len(c.columns) ==> c.columns[j].ColumnIndex == old(c.columns[j].ColumnIndex)
+
+// whatever the bytes: no index out of range, the stream is closed on every path, the read loop terminates
+//@ func Csv.ReadFromReader
+//@ modifies c
+//@ requires forall j :: 0 <= j && j < len(c.columns) ==> c.columns[j].ColumnIndex >= 0 - 1
+//@ ensures[C19] "stream-is-closed-on-every-path" closed(result)
+//@ loop#0 invariant !closed(rows) && extrem(csvReader) >= 0 && (forall j :: 0 <= j && j < len(c.columns) ==> c.columns[j].ColumnIndex >= 0 - 1)
+//@ loop#0 invariant c.hasHeader ==> csvfpr(csvReader) >= 0 && (forall j :: 0 <= j && j < len(c.columns) ==> c.columns[j].ColumnIndex < csvfpr(csvReader))
+//@ loop#0 decreases extrem(csvReader)
+//@ loop#1 invariant !closed(rows)
